@@ -68,7 +68,7 @@ import (
 	_ "github.com/segmentio/kafka-go/protocol/offsetdelete"
 	_ "github.com/segmentio/kafka-go/protocol/offsetfetch"
 	_ "github.com/segmentio/kafka-go/protocol/produce"
-	_ "github.com/segmentio/kafka-go/protocol/saslauthenticate"
+	"github.com/segmentio/kafka-go/protocol/saslauthenticate"
 	_ "github.com/segmentio/kafka-go/protocol/saslhandshake"
 	_ "github.com/segmentio/kafka-go/protocol/syncgroup"
 	_ "github.com/segmentio/kafka-go/protocol/txnoffsetcommit"
@@ -376,6 +376,49 @@ func rawSasl(out *bufio.Writer, r *rand.Rand, thorough bool) (n int) {
 	return
 }
 
+// rawSaslTransport: the same un-framed token exchange on the Transport path (protocol/saslauthenticate RawExchange, used
+// by protocol.Conn.RoundTrip after a v0 handshake): the answer [int32 len][bytes] cut after k bytes.
+//
+//	c17rawt <answer hex> <k>\t<ok n|err|panic>
+func rawSaslTransport(out *bufio.Writer, r *rand.Rand) (n int) {
+	for _, tokLen := range []int{0, 1, 9, 40, 300} {
+		tok := gen.Bytes(r, tokLen)
+		w := &connfake.W{}
+		w.I32(int32(tokLen))
+		w.Raw(tok)
+		ks := cuts(r, len(w.B), true, 0)
+		for _, k := range ks {
+			if k > len(w.B) {
+				continue
+			}
+			res := "err"
+			func() {
+				defer func() {
+					if p := recover(); p != nil {
+						res = "panic"
+					}
+				}()
+				rw := struct {
+					io.Reader
+					io.Writer
+				}{bytes.NewReader(w.B[:k]), io.Discard}
+				msg, err := (&saslauthenticate.Request{AuthBytes: []byte("client-token")}).RawExchange(rw)
+				if err == nil {
+					resp, _ := msg.(*saslauthenticate.Response)
+					if resp == nil || !bytes.Equal(resp.AuthBytes, tok) {
+						res = "fake"
+					} else {
+						res = fmt.Sprintf("ok %d", len(resp.AuthBytes))
+					}
+				}
+			}()
+			fmt.Fprintf(out, "c17rawt %s %d\t%s\n", gen.Hex(w.B), k, res)
+			n++
+		}
+	}
+	return
+}
+
 // ---------------------------------------------------------------------------------------------- two callers, one Conn
 
 // twoCallers: A's and B's requests are both written before the broker answers; the two response frames are then
@@ -608,6 +651,7 @@ func main() {
 	t0 := time.Now()
 	lap := func() string { d := time.Since(t0).Round(time.Millisecond); t0 = time.Now(); return d.String() }
 	nraw := rawSasl(out, r, thorough)
+	nraw += rawSaslTransport(out, r)
 	fmt.Fprintf(os.Stderr, "c17 driver: %d stalled-broker cases (%d back long after the deadline)\n", nstall, nlate)
 	fmt.Fprintf(os.Stderr, "c17 driver: %d un-framed sasl token cases\n", nraw)
 	n2, bad2 := twoCallers(out, r, thorough)
